@@ -94,6 +94,34 @@ func init() {
 	campaigns["C09"] = func(c *Ctx) {
 		c.Rule = "items generated type-directed over the whole vocabulary (all 14 structs, by pointer and by value, IRIs, links, item lists and IRI lists, id-less embedded objects, 1-3 language values incl. repeated language references, nesting depth <= 2): (1) every item against itself (two independently built copies) -> true, also with a list that names one thing twice (same IRI, IRI next to the object of that id, an id-less object twice); (2) every nil kind against every nil kind -> true, and against non-nil items in both orders -> false; (3) a copy with a different id (host, path or query) or a type differing in more than case -> false, a type differing only in case -> true; (4) for every property of the object core other than media type and source, and actor/object/target/result/origin/instrument of activities: a copy with that property changed to a different value (both orders -> false) or removed / added (the order whose second argument carries the value -> false); (4b) systematically, on minimal values: every struct x every type name of its family (incl. the generic names Object, Activity, Actor, ...) x every listed property, changed and one-sided, a quarter of them with the type name in lower case and a quarter in upper case on both sides; (5) IRI vs object of the same id, value vs pointer, random unrelated pairs: correspondence only."
 		cfg := &GenCfg{MaxDepth: 2, Density: 18, ValueNodes: true, Links: true, EmptyTypes: true, MultiLang: true, RepeatLang: true, Zones: true}
+		// (1b) every struct carrying every type name of the vocabulary (a page name on a collection struct, an actor
+		// name on an object struct, ...: values that can be built by hand although no decoder produces them), by
+		// pointer and by value, against a copy of itself
+		{
+			seen := map[string]bool{}
+			var names []string
+			for _, fam := range []string{"Object", "Actor", "Activity", "IntransitiveActivity", "Question", "Collection", "OrderedCollection", "CollectionPage", "OrderedCollectionPage", "Place", "Profile", "Relationship", "Tombstone", "Link"} {
+				for _, n := range vocab[fam] {
+					if !seen[n] {
+						seen[n] = true
+						names = append(names, n)
+					}
+				}
+			}
+			k := 0
+			for _, goType := range allGoTypes {
+				for _, name := range names {
+					for _, ptr := range []bool{true, false} {
+						k++
+						x := T{"t": goType, "ptr": ptr, "f": T{"ID": T{"s": fmt.Sprintf("https://example.com/mistyped/%d", k)}, "Type": T{"s": name}}}
+						if k%3 == 0 {
+							x["f"].(T)["Name"] = T{"nlv": []interface{}{[]interface{}{"en", "a name"}}}
+						}
+						c09Emit(c, c09Case{A: x, B: cloneTree(x), Want: "true", Why: "reflexive/any-struct-any-type-name"})
+					}
+				}
+			}
+		}
 		n := c.N(700, 15000)
 		for i := 0; i < n; i++ {
 			var x interface{}
